@@ -66,6 +66,8 @@ pub static INITIAL_TABLETS: std::sync::atomic::AtomicI32 = std::sync::atomic::At
 /// and what is added to the client's source port before the shard of a shard-aware-port connection is derived from it
 /// (0 = faithful; k > 0 emulates a NAT rewriting source ports: the node binds the connection to another shard than requested).
 pub static SHARD_SKEW: std::sync::atomic::AtomicU16 = std::sync::atomic::AtomicU16::new(0);
+/// index of a node that currently accepts no NEW connections (they are closed at once; established ones live on), or -1
+pub static REFUSE_NODE: std::sync::atomic::AtomicI32 = std::sync::atomic::AtomicI32::new(-1);
 
 #[derive(Clone, Debug)]
 pub struct MockKeyspace {
@@ -763,6 +765,10 @@ async fn accept_loop(shared: Arc<Shared>, listener: TcpListener, node: usize, sh
                 continue;
             }
         };
+        if REFUSE_NODE.load(Ordering::SeqCst) == node as i32 {
+            drop(stream);
+            continue;
+        }
         let _ = stream.set_nodelay(true);
         let nr_shards = shared.cfg.read().unwrap().nodes.get(node).and_then(|n| n.nr_shards).filter(|n| *n > 0);
         let shard = nr_shards.map(|nr| if shard_aware { (peer.port().wrapping_add(SHARD_SKEW.load(Ordering::SeqCst))) % nr } else { (rt.rr.fetch_add(1, Ordering::SeqCst) % nr as u32) as u16 });
